@@ -491,13 +491,14 @@ Definition c09_oracle_mismatches (cases : list (Z * uinfo)) : list Z :=
     if in_range r 0 127 then negb (uinfo_eqb i (ascii_info r))
     else if (r <? 0) || (MaxRune <? r) then negb (uinfo_eqb i (0, r, r, r))
     else false) cases.
-(* the hypotheses the proofs put on the oracle, checked on Go's values: an upper-case rune is
-   not lower-case; ToUpper of a lower-case rune is never an ASCII character other than A-Z *)
+(* the hypotheses the theorems put on the oracle, checked on Go's values: ToUpper of a lower-case
+   rune is never an ASCII character other than A-Z (upper_hyp, cross-protocol theorem); ToLower of
+   an upper-case rune is never DEL (decode of a legacy byte) *)
 Definition c09_oracle_violations (cases : list (Z * uinfo)) : list Z :=
   bad_indices (fun c =>
     let '(r, (f, up, lo, fo)) := c in
-    (Z.testbit f 1 && in_range up 0 127 && negb (in_range up 65 90))
-    || (Z.testbit f 0 && Z.testbit f 1 && in_range r 0 127)) cases.
+    (Z.testbit f 1 && in_range up 32 126 && negb (in_range up 65 90))
+    || (Z.testbit f 0 && (lo =? 127))) cases.
 
 (* decode stream: (oracle table, encoding if the sequence was built from one, sequence fed to
    decodeKey, key returned) *)
@@ -757,8 +758,11 @@ Definition cross_pair_ok (c : chord) (sl sk : kseq) : bool :=
    (kstr_equivb (decode_key ascii_uni sl) (decode_key ascii_uni sk) &&
     kmatch_equivb (decode_key ascii_uni sl) (decode_key ascii_uni sk))).
 
-Definition cross_all_ok : bool :=
-  forallb (fun c => forallb (fun sl => forallb (fun sk => cross_pair_ok c sl sk) (kitty_encs c)) (legacy_encs c)) both_expressible.
+Definition cross_chord_ok (c : chord) : bool :=
+  forallb (fun sl => forallb (fun sk => cross_pair_ok c sl sk) (kitty_encs c)) (legacy_encs c).
+Definition cross_all_ok : bool := forallb cross_chord_ok both_expressible.
+
+Definition chord_eqb (a b : chord) : bool := (ch_code a =? ch_code b) && (ch_mods a =? ch_mods b).
 
 (* cross stream: (chord, legacy sequence, kitty sequence, String() of both decoded keys, a list of
    bindings (rune, mods, Matches on the legacy key, Matches on the kitty key)) *)
@@ -780,6 +784,19 @@ Definition c09_cross_violations (cases : list cross_case) : list Z :=
     let '(c, sl, sk, strl, strk, bs) := cs in
     negb (zlist_eqb strl strk)
     || negb (forallb (fun b => let '(r, mods, ol, ok) := b in (r =? 0) || Bool.eqb ol ok) bs)) cases.
-(* the cases under the guards of the recorded findings *)
-Definition c09_cross_known (cases : list cross_case) : list Z :=
-  bad_indices (fun cs => let '(c, sl, sk, _, _, _) := cs in negb (cross_guard c sk)) cases.
+
+(* pipeline stream: bytes were written to the fake console of a real Vaxis; (table, the sequence the
+   ANSI parser (property C02) produces for those bytes, inside a bracketed paste or not, the Key read
+   from Vaxis.Events()) *)
+Definition pipeline_case := (utab * kseq * bool * key)%type.
+
+Definition c09_pipeline_mismatches (cases : list pipeline_case) : list Z :=
+  bad_indices (fun c =>
+    let '(t, s, paste, obs) := c in
+    let k := decode_key (uni_of t) s in
+    negb (decode_covered t s)
+    || negb (key_eqb (if (paste : bool) then mkKey (k_text k) (k_code k) (k_shifted k) (k_base k) (k_mods k) EventPaste else k) obs)) cases.
+(* the decode property is checked by the decode stream; here only: a paste is marked as such *)
+Definition c09_pipeline_violations (cases : list pipeline_case) : list Z :=
+  bad_indices (fun c : utab * kseq * bool * key =>
+    match c with (_, _, paste, obs) => paste && negb (k_event obs =? EventPaste) end) cases.
